@@ -35,12 +35,7 @@ import (
 	"verifharness/internal/tv"
 )
 
-func zbig(v *big.Int) string {
-	if v.Sign() < 0 {
-		return "(" + v.String() + ")"
-	}
-	return v.String()
-}
+func zbig(v *big.Int) string { return h.BigZ(v) }
 
 func coqTree(v ttlv.Value) (string, error) {
 	n, ok := tv.FromValue(v)
